@@ -414,10 +414,14 @@ PROPS = {"C17": dict(
         "Zrnt.Proofs.C17.readers_pure",
         "Zrnt.Proofs.C17.single_section",
         "Zrnt.Proofs.C17.no_unsynchronised_handout",
+        "Zrnt.Proofs.C17.rows_wellFormed",
+        "Zrnt.Proofs.C17.table_system_safe",
         "Zrnt.Proofs.C17.baseline_no_reentry_false",
         "Zrnt.Proofs.C17.baseline_guarded_access_false",
         "Zrnt.Proofs.C17.baseline_single_section_false",
         "Zrnt.Proofs.C17.baseline_no_unsynchronised_handout_false",
+        "Zrnt.Proofs.C17.baseline_updateJustified_model_deadlocks",
+        "Zrnt.Proofs.C17.baseline_search_prune_model_race",
     ],
     modes=[],
     regen=["extract:lockfacts"],
